@@ -591,6 +591,414 @@ theorem case_sepD (hs₁ : s₁.Ok H L) (hs₂ : s₂.Ok H L) {n a b : Nat} (hP 
         simp [repLoop, sepStep, hm1 (M+1) (by omega), finish, thenK]
       | fuel => rw [h1] at hne; simp [thenK] at hne
 
+end cases
+
+/-! ### graphs that never yield `.bad` -/
+
+theorem finish_ne_bad {nd : Node} {r : Res} (h : r ≠ .bad) : finish nd r ≠ .bad := by
+  cases r <;> simp [finish] at h ⊢
+
+theorem seqLoop_nb {f : Nat → Nat → Res} :
+    ∀ es p acc, (∀ e, e ∈ es → ∀ q, f e q ≠ .bad) → seqLoop f es p acc ≠ .bad := by
+  intro es
+  induction es with
+  | nil => intro p acc _; simp [seqLoop]
+  | cons e es ih =>
+    intro p acc h
+    simp only [seqLoop]
+    cases hf : f e p with
+    | ok v q => exact ih q _ (fun e' he' => h e' (List.mem_cons_of_mem _ he'))
+    | fail => simp
+    | fuel => simp
+    | bad => exact absurd hf (h e (List.mem_cons_self ..) p)
+
+theorem choiceLoop_nb {f : Nat → Nat → Res} :
+    ∀ es cpos p, (∀ e, e ∈ es → ∀ q, f e q ≠ .bad) → choiceLoop f es cpos p ≠ .bad := by
+  intro es
+  induction es with
+  | nil => intro cpos p _; simp [choiceLoop]
+  | cons e es ih =>
+    intro cpos p h
+    simp only [choiceLoop]
+    have h' : ∀ e', e' ∈ es → ∀ q, f e' q ≠ .bad := fun e' he' => h e' (List.mem_cons_of_mem _ he')
+    cases hf : f e p with
+    | ok v q =>
+      by_cases hv : v = .N
+      · simp only [hv, if_true]; exact ih cpos q h'
+      · simp [hv]
+    | fail => exact ih cpos cpos h'
+    | fuel => simp
+    | bad => exact absurd hf (h e (List.mem_cons_self ..) p)
+
+theorem sepStep_nb {fs : Option (Nat → Res)} (h : ∀ f, fs = some f → ∀ q, f q ≠ .bad) (pos : Nat) (acc : Sh)
+    (prev : Bool) : sepStep fs pos acc prev ≠ .bad := by
+  cases fs with
+  | none => simp [sepStep]
+  | some f =>
+    simp only [sepStep]
+    by_cases hp : prev = true
+    · simp only [hp, if_true]
+      cases hf : f pos with
+      | ok v q => simp
+      | fail => simp
+      | fuel => simp
+      | bad => exact absurd hf (h f rfl pos)
+    · simp [hp]
+
+theorem repLoop_nb {fk : Nat → Res} {fs : Option (Nat → Res)} (hk : ∀ q, fk q ≠ .bad)
+    (hs : ∀ f, fs = some f → ∀ q, f q ≠ .bad) :
+    ∀ j pos acc first prev, repLoop fk fs j pos acc first prev ≠ .bad := by
+  intro j
+  induction j with
+  | zero => intro pos acc first prev; simp [repLoop]
+  | succ j ih =>
+    intro pos acc first prev
+    simp only [repLoop]
+    cases hsp : sepStep fs pos acc prev with
+    | ok acc1 p1 =>
+      simp only
+      cases hf : fk p1 with
+      | ok v p2 =>
+        simp only
+        by_cases hv : v.truthy = true
+        · simp only [hv, if_true]; exact ih p2 _ false true
+        · simp [hv]
+      | fail => by_cases hfi : first = true <;> simp [hfi]
+      | fuel => simp
+      | bad => exact absurd hf (hk p1)
+    | fail => by_cases hfi : first = true <;> simp [hfi]
+    | fuel => simp
+    | bad => exact absurd hsp (sepStep_nb hs pos acc prev)
+
+theorem commentsLoop_nb {f : Nat → Res} {skip : Nat → Nat} (h : ∀ q, f q ≠ .bad) :
+    ∀ j pos, commentsLoop f skip j pos ≠ .bad := by
+  intro j
+  induction j with
+  | zero => intro pos; simp [commentsLoop]
+  | succ j ih =>
+    intro pos
+    simp only [commentsLoop]
+    cases hf : f pos with
+    | ok v q => exact ih _
+    | fail => simp
+    | fuel => simp
+    | bad => exact absurd hf (h pos)
+
+theorem wf_get {g : Graph} (h : noBadB g = true) {a : Nat} (ha : a < g.size) :
+    ∃ nd, g.get a = some nd ∧ wfNode g nd = true := by
+  simp only [noBadB, Bool.and_eq_true, List.all_eq_true, List.mem_range] at h
+  have := h.2 a ha
+  cases hg : g.get a with
+  | none => simp [hg] at this
+  | some nd => simp only [hg] at this; exact ⟨nd, rfl, this⟩
+
+theorem lexTok_ne_bad (nd : Node) (L : Lex) (p : Nat) : lexTok nd L p ≠ .bad := by
+  unfold lexTok
+  cases nd.kind <;> simp only <;> (first | (split <;> simp) | (cases L.tok nd.tok p <;> simp))
+
+/-- a graph accepted by `noBadB` never yields `.bad` -/
+theorem parse_ne_bad {g : Graph} {L : Lex} (h : noBadB g = true) :
+    ∀ n a c p, a < g.size → parse g L n a c p ≠ .bad := by
+  intro n
+  induction n with
+  | zero => intro a c p _; simp [parse]
+  | succ n ih =>
+    intro a c p ha
+    obtain ⟨nd, hnd, hwf⟩ := wf_get h ha
+    simp only [wfNode, Bool.and_eq_true, List.all_eq_true, decide_eq_true_eq] at hwf
+    obtain ⟨⟨⟨hsup, hkids⟩, hsep⟩, harity⟩ := hwf
+    have hcom : ∀ cm, g.comments = some cm → cm < g.size := by
+      intro cm hcm
+      simp only [noBadB, Bool.and_eq_true] at h
+      have := h.1
+      simpa [hcm] using this
+    have hsepf : ∀ f, (nd.sep.map fun s q => parse g L n s c q) = some f → ∀ q, f q ≠ .bad := by
+      intro f hf q
+      cases hs : nd.sep with
+      | none => simp [hs] at hf
+      | some s =>
+        simp only [hs, Option.map, Option.some.injEq] at hf
+        subst hf
+        simp only [hs, decide_eq_true_eq] at hsep
+        exact ih s c q hsep
+    have hmatch : (match skipGen g L (fun e q => parse g L n e true q) n c p with
+        | .ok _ p => finish nd (lexTok nd L p)
+        | r => r) ≠ .bad := by
+      have hsk : skipGen g L (fun e q => parse g L n e true q) n c p ≠ .bad := by
+        unfold skipGen
+        by_cases hc : c = true
+        · simp [hc]
+        · simp only [hc]
+          cases hcm : g.comments with
+          | none => simp
+          | some cm => exact commentsLoop_nb (fun q => ih cm true q (hcom cm hcm)) _ _
+      cases hr : skipGen g L (fun e q => parse g L n e true q) n c p with
+      | ok v q => exact finish_ne_bad (lexTok_ne_bad nd L q)
+      | fail => simp
+      | fuel => simp
+      | bad => exact absurd hr hsk
+    unfold parse
+    simp only [hnd, hsup, Bool.not_true, Bool.false_eq_true, if_false]
+    cases hk : nd.kind <;> simp only [hk] at harity ⊢
+    case str => exact hmatch
+    case re => exact hmatch
+    case eof => exact hmatch
+    case seq =>
+      apply finish_ne_bad
+      have := seqLoop_nb (f := fun e p => parse g L n e c p) nd.kids p .E (fun e he q => ih e c q (hkids e he))
+      cases hr : seqLoop (fun e p => parse g L n e c p) nd.kids p .E with
+      | ok v q => simp
+      | fail => simp
+      | fuel => simp
+      | bad => exact absurd hr this
+    case choice =>
+      exact finish_ne_bad (choiceLoop_nb (f := fun e p => parse g L n e c p) nd.kids p p
+        (fun e he q => ih e c q (hkids e he)))
+    case unord => exact absurd harity (by simp)
+    all_goals (
+      cases hkk : nd.kids with
+      | nil => simp [hkk] at harity
+      | cons k ks =>
+        cases ks with
+        | cons _ _ => simp [hkk] at harity
+        | nil =>
+          have hklt : k < g.size := hkids k (by simp [hkk])
+          simp only
+          first
+            | exact finish_ne_bad (repLoop_nb (fun q => ih k c q hklt) hsepf _ _ _ _ _)
+            | (apply finish_ne_bad
+               cases hr : parse g L n k c p with
+               | ok v q => simp
+               | fail => simp
+               | fuel => simp
+               | bad => exact absurd hr (ih k c p hklt)))
+
+/-! ### the guarded separator -/
+
+theorem get_match {g : Graph} {x : Nat} {P : Node → Bool}
+    (h : (match g.get x with
+          | some nd => P nd
+          | none => false) = true) : ∃ nd, g.get x = some nd ∧ P nd = true := by
+  cases hx : g.get x with
+  | none => simp [hx] at h
+  | some nd => simp only [hx] at h; exact ⟨nd, rfl, h⟩
+
+theorem omega_fuel {g : Graph} {L : Lex} {w : Nat} {nw : Node} (hw : g.get w = some nw)
+    (ht : transparentSeq nw = true) (hk : nw.kids = [w]) : ∀ n c p, parse g L n w c p = .fuel := by
+  intro n
+  induction n with
+  | zero => intro c p; simp [parse]
+  | succ n ih => intro c p; rw [parse_seq hw ht, hk]; simp [seqLoop, ih, seqRes, finish]
+
+theorem parse_andP {g : Graph} {L : Lex} {n a c p} {nd : Node} {k : Nat} (hnd : g.get a = some nd)
+    (hk : nd.kind = .andP) (hs : supported nd = true) (hkids : nd.kids = [k]) :
+    parse g L (n+1) a c p = finish nd (match parse g L n k c p with
+      | .ok _ _ => .ok .N p
+      | r => r) := by
+  rw [parse]
+  simp only [hnd, hs, Bool.not_true, Bool.false_eq_true, if_false, hk, hkids]
+  rfl
+
+/-- the lookahead `And(OrderedChoice[z, ω])` of a guarded separator -/
+def andRes (g : Graph) (L : Lex) (z : Nat) (n : Nat) (c : Bool) (q : Nat) : Res :=
+  match n with
+  | n' + 2 =>
+    (match parse g L n' z c q with
+     | .ok _ _ => .ok .N q
+     | .fail => .fuel
+     | r => r)
+  | _ => .fuel
+
+theorem andRes_ok {g : Graph} {L : Lex} {z n : Nat} {c : Bool} {q : Nat} {v : Sh} {r : Nat}
+    (h : andRes g L z n c q = .ok v r) : v = .N ∧ r = q ∧ ∃ n' v' r', parse g L n' z c q = .ok v' r' := by
+  unfold andRes at h
+  split at h
+  · rename_i n'
+    cases h2 : parse g L n' z c q with
+    | ok v' r' =>
+      rw [h2] at h
+      simp only [Res.ok.injEq] at h
+      exact ⟨h.1.symm, h.2.symm, n', v', r', h2⟩
+    | fail => rw [h2] at h; simp at h
+    | bad => rw [h2] at h; simp at h
+    | fuel => rw [h2] at h; simp at h
+  · simp at h
+
+theorem guard_eval {g : Graph} {L : Lex} {a t an ch z w : Nat} (hg : isGuard g a t an ch z w = true)
+    (hz : ∀ n c q v r, parse g L n z c q = .ok v r → v = .T)
+    (ht : ∀ n c q v r, parse g L n t c q = .ok v r → v = .T) (n : Nat) (c : Bool) (p : Nat) :
+    parse g L (n+1) a c p =
+      match parse g L n t c p with
+      | .ok _ q =>
+        (match andRes g L z n c q with
+         | .ok _ _ => .ok .T q
+         | r => r)
+      | r => r := by
+  simp only [isGuard, Bool.and_eq_true] at hg
+  obtain ⟨⟨⟨h1, h2⟩, h3⟩, h4⟩ := hg
+  obtain ⟨na, hna, hpa⟩ := get_match h1
+  obtain ⟨nan, hnan, hpan⟩ := get_match h2
+  obtain ⟨nch, hnch, hpch⟩ := get_match h3
+  obtain ⟨nw, hnw, hpw⟩ := get_match h4
+  simp only [Bool.and_eq_true, beq_iff_eq, Bool.not_eq_true'] at hpa hpan hpch hpw
+  obtain ⟨hta, hka⟩ := hpa
+  obtain ⟨⟨⟨hkan, hsan⟩, hspan⟩, hkidsan⟩ := hpan
+  obtain ⟨⟨⟨hkch, hsch⟩, hspch⟩, hkidsch⟩ := hpch
+  obtain ⟨htw, hkw⟩ := hpw
+  have hsa := (transparent_iff hta).2.2
+  have hand : ∀ q, parse g L n an c q = andRes g L z n c q := by
+    intro q
+    cases n with
+    | zero => simp [parse, andRes]
+    | succ n1 =>
+      rw [parse_andP hnan hkan hsan hkidsan]
+      cases n1 with
+      | zero => simp [parse, andRes, finish]
+      | succ n2 =>
+        rw [parse_choice hnch hkch hsch, hkidsch]
+        simp only [choiceLoop, andRes]
+        cases h2 : parse g L n2 z c q with
+        | ok vz r =>
+          have := hz n2 c q vz r h2
+          subst this
+          simp [Sh.wrap1, finish, hspch, hspan]
+        | fail => simp [omega_fuel hnw htw hkw, finish]
+        | bad => simp [finish]
+        | fuel => simp [finish]
+  rw [parse_seq hna hta, hka]
+  simp only [seqLoop, hand]
+  cases h1' : parse g L n t c p with
+  | ok v q =>
+    have := ht n c p v q h1'
+    subst this
+    simp only
+    cases h2' : andRes g L z n c q with
+    | ok va qa =>
+      obtain ⟨rfl, rfl, _⟩ := andRes_ok h2'
+      simp [Sh.add, seqRes, finish, hsa]
+    | fail => simp [seqRes, finish]
+    | bad => simp [seqRes, finish]
+    | fuel => simp [seqRes, finish]
+  | fail => simp [seqRes, finish]
+  | bad => simp [seqRes, finish]
+  | fuel => simp [seqRes, finish]
+
+theorem guardC_unfold {s₁ s₂ : Side} {d : Nat} {R : Rel} {a b : Nat} (h : guardC s₁ s₂ d R a b = true) :
+    ∃ t an ch z w, isGuard s₁.g a t an ch z w = true ∧ onlyT s₁.sh t = true ∧ onlyT s₁.sh z = true ∧
+      noBadB s₁.g = true ∧ z < s₁.g.size ∧ inR s₁ s₂ d R t b = true := by
+  unfold guardC at h
+  cases hp : guardParts s₁.g a with
+  | none => simp [hp] at h
+  | some tup =>
+    obtain ⟨t, an, ch, z, w⟩ := tup
+    simp only [hp, Bool.and_eq_true, decide_eq_true_eq] at h
+    obtain ⟨⟨⟨⟨⟨a1, a2⟩, a3⟩, a4⟩, a5⟩, a6⟩ := h
+    exact ⟨t, an, ch, z, w, a1, a2, a3, a4, a5, a6⟩
+
+section cases
+variable {s₁ s₂ : Side} {H : Hyps} {L : Lex} {d : Nat} {R : Rel}
+
+theorem case_guardC (hs₁ : s₁.Ok H L) (hs₂ : s₂.Ok H L) {n a b : Nat} (hP : P s₁ s₂ L R n)
+    (h : guardC s₁ s₂ d R a b = true) : Goal s₁ s₂ L n a b := by
+  intro c p hne
+  obtain ⟨t, an, ch, z, w, hg, hT, hZ, hnb, hzlt, hin⟩ := guardC_unfold h
+  have trT : Tr s₁ s₂ L n t b := inR_tr hs₁ hs₂ hP hin
+  have hev := guard_eval (L := L) hg (fun n c q v r h => onlyT_val hs₁ hZ h) (fun n c q v r h => onlyT_val hs₁ hT h) n c p
+  rw [hev] at hne ⊢
+  cases h1 : parse s₁.g L n t c p with
+  | ok v q =>
+    have hv := onlyT_val hs₁ hT h1
+    subst hv
+    rw [h1] at hne
+    simp only at hne ⊢
+    obtain ⟨m1, hm1⟩ := trT n (Nat.le_refl n) c p (by rw [h1]; simp)
+    rw [h1] at hm1
+    cases h2 : andRes s₁.g L z n c q with
+    | ok va qa => exact ⟨m1, fun m hm => by simp [hm1 m hm]⟩
+    | fail =>
+      exfalso
+      unfold andRes at h2
+      split at h2
+      · rename_i n'
+        cases h3 : parse s₁.g L n' z c q <;> rw [h3] at h2 <;> simp at h2
+      · simp at h2
+    | bad =>
+      exfalso
+      unfold andRes at h2
+      split at h2
+      · rename_i n'
+        cases h3 : parse s₁.g L n' z c q with
+        | bad => exact parse_ne_bad hnb n' z c q hzlt h3
+        | ok _ _ => rw [h3] at h2; simp at h2
+        | fail => rw [h3] at h2; simp at h2
+        | fuel => rw [h3] at h2; simp at h2
+      · simp at h2
+    | fuel => rw [h2] at hne; simp at hne
+  | fail =>
+    obtain ⟨m1, hm1⟩ := trT n (Nat.le_refl n) c p (by rw [h1]; simp)
+    rw [h1] at hm1
+    exact ⟨m1, fun m hm => by simp [hm1 m hm]⟩
+  | bad =>
+    obtain ⟨m1, hm1⟩ := trT n (Nat.le_refl n) c p (by rw [h1]; simp)
+    rw [h1] at hm1
+    exact ⟨m1, fun m hm => by simp [hm1 m hm]⟩
+  | fuel => rw [h1] at hne; simp at hne
+
+end cases
+
+/-- a repetition whose separator is guarded by a lookahead for its own element has no trailing
+separator, whatever the lexer -/
+theorem trap_notrail {s : Side} {H : Hyps} {L : Lex} (hs : s.Ok H L) {i : Nat} (h : trapOk s i = true) :
+    NoTrailingSep s.g i L := by
+  unfold trapOk at h
+  cases hpl : plusSep s.g i with
+  | none => simp [hpl] at h
+  | some zG =>
+    obtain ⟨z, G⟩ := zG
+    simp only [hpl] at h
+    cases hp : guardParts s.g G with
+    | none => simp [hp] at h
+    | some tup =>
+      obtain ⟨t, an, ch, z', w⟩ := tup
+      simp only [hp, Bool.and_eq_true, beq_iff_eq] at h
+      obtain ⟨⟨⟨hg, hzz⟩, hT⟩, hZ⟩ := h
+      subst hzz
+      obtain ⟨ny, hgy, _, _, _, hkidsy, hsepy⟩ := plusSep_some hpl
+      intro nd k s' hi hk hsep n₁ n₂ c p₀ v₀ q v₁ p₁ _ hS m hm
+      rw [hgy] at hi
+      simp only [Option.some.injEq] at hi
+      subst hi
+      rw [hkidsy] at hk
+      rw [hsepy] at hsep
+      simp only [List.cons.injEq, and_true, Option.some.injEq] at hk hsep
+      subst hk; subst hsep
+      cases n₂ with
+      | zero => simp [parse] at hS
+      | succ n =>
+        rw [guard_eval (L := L) hg (fun n c q v r h => onlyT_val hs hZ h) (fun n c q v r h => onlyT_val hs hT h) n c q] at hS
+        cases h1 : parse s.g L n t c q with
+        | ok v q' =>
+          rw [h1] at hS
+          simp only at hS
+          cases h2 : andRes s.g L z' n c q' with
+          | ok va qa =>
+            rw [h2] at hS
+            simp only [Res.ok.injEq] at hS
+            obtain ⟨_, _, n', v', r', h3⟩ := andRes_ok h2
+            rw [← hS.2] at hm
+            have := parse_det s.g L (n := n') (m := m) (a := z') (c := c) (p := q') (by rw [h3]; simp) (by rw [hm]; simp)
+            rw [h3, hm] at this
+            exact absurd this (by simp)
+          | fail => rw [h2] at hS; simp at hS
+          | bad => rw [h2] at hS; simp at hS
+          | fuel => rw [h2] at hS; simp at hS
+        | fail => rw [h1] at hS; simp at hS
+        | bad => rw [h1] at hS; simp at hS
+        | fuel => rw [h1] at hS; simp at hS
+
+section cases
+variable {s₁ s₂ : Side} {H : Hyps} {L : Lex} {d : Nat} {R : Rel}
+
 /-! ### assembling -/
 
 theorem okPairX_goal (hs₁ : s₁.Ok H L) (hs₂ : s₂.Ok H L) (hb : Base s₁ s₂ d R) {exC exD : List (Nat × Nat)}
@@ -606,7 +1014,9 @@ theorem okPairX_goal (hs₁ : s₁.Ok H L) (hs₂ : s₂.Ok H L) (hb : Base s₁
     · rw [if_pos h2] at hok
       exact case_sepD hs₁ hs₂ hP hok (hD (a, b) (by simpa using h2))
     · rw [if_neg h2] at hok
-      exact okPair_goal hs₁ hs₂ hb hP hok
+      rcases Bool.or_eq_true _ _ |>.mp hok with h3 | h3
+      · exact okPair_goal hs₁ hs₂ hb hP h3
+      · exact case_guardC hs₁ hs₂ hP h3
 
 theorem simX_all (hs₁ : s₁.Ok H L) (hs₂ : s₂.Ok H L) (hb : Base s₁ s₂ d R) {exC exD : List (Nat × Nat)}
     (hC : ∀ ab, ab ∈ exC → NoTrailingSep s₁.g ab.1 L) (hD : ∀ ab, ab ∈ exD → NoTrailingSep s₂.g ab.2 L)
